@@ -585,4 +585,600 @@ theorem reset_effect (eps : α) {s s' : Store α} {v v' : Vec} (h : VecOk s v)
 
 end ops
 
+/-! ### constructor -/
+section ctor
+variable {α : Type} [LinearOrder α] [Add α] [Sub α]
+
+theorem ctorMins_ok {an : Bool} {n : Nat} {mins : Option (List (XR α))} {lo : List (XR α)}
+    (e : ctorMins an n mins = .ok lo) (hm : ∀ m, mins = some m → m.any XR.isNaN = false) :
+    lo.length = n ∧ lo.any XR.isNaN = false := by
+  unfold ctorMins at e
+  split at e
+  · simp only [Except.ok.injEq] at e; subst e
+    exact ⟨by simp, any_isNaN_replicate n _ (by simp [XR.isNaN])⟩
+  · rename_i m
+    split at e
+    · simp at e
+    · rename_i hr
+      simp only [Except.ok.injEq] at e
+      obtain ⟨hl, _⟩ := reject?_none hr
+      rw [clipAll_inf n m hl] at e; subst e
+      exact ⟨hl, hm _ rfl⟩
+
+theorem ctorMaxs_ok {eps : α} {an : Bool} {n : Nat} {lo : List (XR α)} {maxs : Option (List (XR α))}
+    {hi : List (XR α)} (e : ctorMaxs eps an n lo maxs = .ok hi) (hlo : lo.length = n)
+    (hlon : lo.any XR.isNaN = false) (hm : ∀ m, maxs = some m → m.any XR.isNaN = false) :
+    hi.length = n ∧ boundsOk lo hi = true := by
+  unfold ctorMaxs at e
+  split at e
+  · simp only [Except.ok.injEq] at e; subst e
+    refine ⟨by simp, ?_⟩
+    clear hm
+    induction n generalizing lo with
+    | zero => cases lo <;> simp_all [boundsOk, all2]
+    | succ n ih =>
+      cases lo with
+      | nil => simp at hlo
+      | cons l lo =>
+        simp only [List.any_cons, Bool.or_eq_false_iff] at hlon
+        simp only [List.replicate_succ, boundsOk, all2, Bool.and_eq_true]
+        refine ⟨?_, ih (by simpa using hlo) hlon.2⟩
+        cases l <;> simp_all [boundElem, XR.isNaN, XR.lt]
+  · rename_i m
+    split at e
+    · simp at e
+    · rename_i hr
+      obtain ⟨hl, _⟩ := reject?_none hr
+      split at e
+      · simp at e
+      · simp only [Except.ok.injEq] at e; subst e
+        exact ⟨clipAll_length n _ _ _ hl hlo (by simp), boundsOk_clip_maxs n lo m hlo hl hlon (hm _ rfl)⟩
+
+theorem ctorDefaults_ok [OfNat α 0] {eps : α} {an : Bool} {n : Nat} {lo hi : List (XR α)}
+    {defaults : Option (List (XR α))} {d : List (XR α)} (e : ctorDefaults eps an n lo hi defaults = .ok d)
+    (hlo : lo.length = n) (hhi : hi.length = n) (hb : boundsOk lo hi = true) :
+    d.length = n ∧ valuesOk an d lo hi = true := by
+  unfold ctorDefaults at e
+  split at e
+  · simp only [Except.ok.injEq] at e; subst e
+    refine ⟨clipAll_length n _ _ _ (by simp) hlo hhi, valuesOk_clipAll an _ lo hi hb ?_⟩
+    intro h
+    rw [any_isNaN_replicate n _ (by simp [XR.isNaN])] at h
+    simp at h
+  · rename_i dv
+    split at e
+    · simp at e
+    · rename_i hr
+      obtain ⟨hl, hn⟩ := reject?_none hr
+      split at e
+      · simp at e
+      · simp only [Except.ok.injEq] at e; subst e
+        exact ⟨clipAll_length n _ _ _ hl hlo hhi, valuesOk_clipAll an _ lo hi hb hn⟩
+
+/-- what the validation part of the constructor guarantees about the arrays it returns -/
+structure ArraysOk (names : List String) (cb ch an : Bool) (lo hi d : List (XR α)) : Prop where
+  len_lo : lo.length = names.length
+  len_hi : hi.length = names.length
+  len_d : d.length = names.length
+  bounds : boundsOk lo hi = true
+  d_ok : valuesOk an d lo hi = true
+  names : nodupB names = true
+  flags : ch = true → cb = true
+
+theorem mkArrays_ok [OfNat α 0] {eps : α} {names : List String} {defaults mins maxs : Option (List (XR α))}
+    {cb ch an : Bool} {lo hi d : List (XR α)}
+    (e : mkArrays eps names defaults mins maxs cb ch an = .ok (lo, hi, d))
+    (hmins : ∀ m, mins = some m → m.any XR.isNaN = false)
+    (hmaxs : ∀ m, maxs = some m → m.any XR.isNaN = false) : ArraysOk names cb ch an lo hi d := by
+  unfold mkArrays at e
+  simp only at e
+  split at e
+  · simp at e
+  · rename_i hf
+    split at e
+    · simp at e
+    · rename_i hnd
+      split at e
+      · simp at e
+      · rename_i lo' e1
+        split at e
+        · simp at e
+        · rename_i hi' e2
+          split at e
+          · simp at e
+          · rename_i d' e3
+            simp only [Except.ok.injEq, Prod.mk.injEq] at e
+            obtain ⟨rfl, rfl, rfl⟩ := e
+            obtain ⟨l1, l2⟩ := ctorMins_ok e1 hmins
+            obtain ⟨h1, h2⟩ := ctorMaxs_ok e2 l1 l2 hmaxs
+            obtain ⟨d1, d2⟩ := ctorDefaults_ok e3 l1 h1 h2
+            refine ⟨l1, h1, d1, h2, d2, by simpa using hnd, ?_⟩
+            intro hch; cases cb <;> simp_all
+
+theorem mkFrom_ok {s : Store α} {names : List String} {cb ch an : Bool} {lo hi d : List (XR α)}
+    (h : ArraysOk names cb ch an lo hi d) :
+    Spawn s (mkFrom s names lo hi d cb ch an).1 (mkFrom s names lo hi d cb ch an).2
+      ∧ VecOk (mkFrom s names lo hi d cb ch an).1 (mkFrom s names lo hi d cb ch an).2
+      ∧ view (mkFrom s names lo hi d cb ch an).1 (mkFrom s names lo hi d cb ch an).2
+          = ⟨names, d, lo, hi, d, false, cb, ch, an⟩ := by
+  have c3 : ((((s.alloc lo).1.alloc hi).1.alloc d).1.alloc d).1.cells (s.next + 1 + 1 + 1) = d := by
+    simp [Store.alloc]
+  have c2 : ((((s.alloc lo).1.alloc hi).1.alloc d).1.alloc d).1.cells (s.next + 1 + 1) = d := by
+    simp [Store.alloc]
+  have c1 : ((((s.alloc lo).1.alloc hi).1.alloc d).1.alloc d).1.cells (s.next + 1) = hi := by
+    simp [Store.alloc]
+  have c0 : ((((s.alloc lo).1.alloc hi).1.alloc d).1.alloc d).1.cells s.next = lo := by
+    have h1 : s.next ≠ s.next + 1 + 1 + 1 := by omega
+    have h2 : s.next ≠ s.next + 1 + 1 := by omega
+    simp [Store.alloc, h1, h2]
+  have cold : ∀ r, r < s.next → ((((s.alloc lo).1.alloc hi).1.alloc d).1.alloc d).1.cells r = s.cells r := by
+    intro r hr
+    have h1 : r ≠ s.next + 1 + 1 + 1 := by omega
+    have h2 : r ≠ s.next + 1 + 1 := by omega
+    have h3 : r ≠ s.next + 1 := by omega
+    have h4 : r ≠ s.next := by omega
+    simp [Store.alloc, h1, h2, h3, h4]
+  refine ⟨⟨?_, ?_, ?_⟩, ?_, ?_⟩
+  · simp [mkFrom]; omega
+  · intro r hr
+    exact cold r hr
+  · intro r hr
+    simp only [mkFrom, Vec.refs, alloc_ref, alloc_next, List.mem_cons, List.mem_singleton, List.not_mem_nil, or_false] at hr
+    omega
+  · exact { lt_next := by
+              intro r hr
+              simp only [mkFrom, Vec.refs, alloc_ref, alloc_next, List.mem_cons, List.mem_singleton, List.not_mem_nil,
+                or_false] at hr ⊢
+              omega
+            nodup := by
+              simp only [mkFrom, Vec.refs, alloc_ref, alloc_next, List.nodup_cons, List.mem_cons, List.mem_singleton,
+                not_or, List.not_mem_nil, not_false_eq_true, List.nodup_nil, and_true]
+              omega
+            len_values := by simp only [mkFrom, alloc_ref, alloc_next, Vec.n]; rw [c3]; exact h.len_d
+            len_mins := by simp only [mkFrom, alloc_ref, alloc_next, Vec.n]; rw [c0]; exact h.len_lo
+            len_maxs := by simp only [mkFrom, alloc_ref, alloc_next, Vec.n]; rw [c1]; exact h.len_hi
+            len_defaults := by simp only [mkFrom, alloc_ref, alloc_next, Vec.n]; rw [c2]; exact h.len_d
+            names := h.names
+            bounds := by simp only [mkFrom, alloc_ref, alloc_next]; rw [c0, c1]; exact h.bounds
+            defaults_ok := by simp only [mkFrom, alloc_ref, alloc_next]; rw [c0, c1, c2]; exact h.d_ok
+            values_ok := by simp only [mkFrom, alloc_ref, alloc_next]; rw [c0, c1, c3]; exact h.d_ok
+            flags := h.flags
+            hit_off := by intro _; rfl }
+  · simp only [view, mkFrom, alloc_ref, alloc_next]
+    rw [c0, c1, c2, c3]
+
+end ctor
+
+/-! ### rebuilding (clone / from_dict) and the world -/
+section world
+variable {α : Type} [LinearOrder α] [Add α] [Sub α]
+
+theorem VecOk.setHit {s : Store α} {v : Vec} (h : VecOk s v) (b : Bool) (hb : v.checkHit = false → b = false) :
+    VecOk s { v with hit := b } :=
+  { lt_next := h.lt_next, nodup := h.nodup, len_values := h.len_values, len_mins := h.len_mins,
+    len_maxs := h.len_maxs, len_defaults := h.len_defaults, names := h.names, bounds := h.bounds,
+    defaults_ok := h.defaults_ok, values_ok := h.values_ok, flags := h.flags, hit_off := hb }
+
+theorem mk_ok [OfNat α 0] {eps : α} {s s1 : Store α} {names : List String}
+    {defaults mins maxs : Option (List (XR α))} {cb ch an : Bool} {c : Vec}
+    (e : mk eps s names defaults mins maxs cb ch an = .ok (s1, c))
+    (hmins : ∀ m, mins = some m → m.any XR.isNaN = false)
+    (hmaxs : ∀ m, maxs = some m → m.any XR.isNaN = false) :
+    Spawn s s1 c ∧ VecOk s1 c ∧ c.names = names ∧ c.checkBounds = cb ∧ c.checkHit = ch ∧ c.acceptNan = an
+      ∧ c.hit = false := by
+  unfold mk at e
+  split at e
+  · simp at e
+  · rename_i lo hi d ea
+    simp only [Except.ok.injEq] at e
+    have ha := mkArrays_ok ea hmins hmaxs
+    obtain ⟨h1, h2, _⟩ := mkFrom_ok (s := s) ha
+    rw [e] at h1 h2
+    have e2 := congrArg Prod.snd e
+    simp only [mkFrom, alloc_ref, alloc_next] at e2
+    subst e2
+    exact ⟨h1, h2, rfl, rfl, rfl, rfl, rfl⟩
+
+theorem rebuild_ok [OfNat α 0] {eps : α} {s s' : Store α} {names : List String}
+    {defaults mins maxs values : List (XR α)} {hit cb ch an : Bool} {c : Vec}
+    (e : rebuild eps s names defaults mins maxs values hit cb ch an = .ok (s', c))
+    (hmins : mins.any XR.isNaN = false) (hmaxs : maxs.any XR.isNaN = false) (hhit : ch = false → hit = false) :
+    Spawn s s' c ∧ VecOk s' c := by
+  unfold rebuild at e
+  split at e
+  · simp at e
+  · rename_i s1 c1 emk
+    obtain ⟨sp, ok1, _, _, hch, _, _⟩ := mk_ok emk (by intro m hm; simp at hm; subst hm; exact hmins)
+      (by intro m hm; simp at hm; subst hm; exact hmaxs)
+    split at e
+    · rename_i s2 c2 eset
+      simp only [Except.ok.injEq, Prod.mk.injEq] at e
+      obtain ⟨rfl, rfl⟩ := e
+      obtain ⟨as, ok2⟩ := setAll_effect eps ok1 values eset
+      refine ⟨⟨Nat.le_trans sp.next_le as.next_le, ?_, ?_⟩, ok2.setHit hit ?_⟩
+      · intro r hr
+        have hv : r ≠ c1.values := by
+          have := sp.fresh c1.values (by simp [Vec.refs]); omega
+        rw [as.frame r (Nat.lt_of_lt_of_le hr sp.next_le) hv, sp.frame r hr]
+      · intro r hr
+        simp only [Vec.refs, List.mem_cons, List.mem_singleton, List.not_mem_nil, or_false] at hr
+        have f1 := sp.fresh c1.values (by simp [Vec.refs])
+        have f2 := sp.fresh c1.mins (by simp [Vec.refs])
+        have f3 := sp.fresh c1.maxs (by simp [Vec.refs])
+        have f4 := sp.fresh c1.defaults (by simp [Vec.refs])
+        have := sp.next_le
+        rcases hr with e | e | e | e
+        · rcases as.values_ref with h | h <;> omega
+        · rw [e, as.mins]; exact f2
+        · rw [e, as.maxs]; exact f3
+        · rw [e, as.defaults]; exact f4
+      · intro h; rw [as.checkHit, hch] at h; exact hhit h
+    · simp at e
+
+/-- an accepted in-place / rebinding assignment on vector `k` keeps the world well formed -/
+theorem update_ok {w : World α} {k : Nat} {f : Store α → Vec → (Store α × Vec) × Out} (hw : WorldOk w)
+    (hf : ∀ v s' v', w.vecs[k]? = some v → f w.store v = ((s', v'), .ok) → Assign w.store v s' v' ∧ VecOk s' v') :
+    WorldOk (w.update k f).1 := by
+  unfold World.update
+  split
+  · exact hw
+  · rename_i v hk
+    split
+    · rename_i s' v' e
+      obtain ⟨as, ok'⟩ := hf v s' v' hk e
+      have hklt : k < w.vecs.length := by
+        rcases List.getElem?_eq_some_iff.mp hk with ⟨h, _⟩; exact h
+      have okv := hw.each k v hk
+      have other : ∀ j u, j ≠ k → w.vecs[j]? = some u → (∀ r ∈ u.refs, r < w.store.next ∧ r ≠ v.values) := by
+        intro j u hj hu r hr
+        refine ⟨(hw.each j u hu).lt_next r hr, ?_⟩
+        intro e
+        exact hw.sep k j v u hk hu (Ne.symm hj) v.values (by simp [Vec.refs]) (e ▸ hr)
+      have refs' : ∀ r ∈ v'.refs, r ∈ v.refs ∨ w.store.next ≤ r := by
+        intro r hr
+        simp only [Vec.refs, List.mem_cons, List.mem_singleton, List.not_mem_nil, or_false] at hr ⊢
+        rcases hr with e | e | e | e
+        · rcases as.values_ref with h | h
+          · left; left; rw [e, h]
+          · right; omega
+        · left; right; left; rw [e, as.mins]
+        · left; right; right; left; rw [e, as.maxs]
+        · left; right; right; right; rw [e, as.defaults]
+      refine ⟨?_, ?_⟩
+      · intro j u hu
+        simp only [List.getElem?_set] at hu
+        split at hu
+        · rename_i hkj
+          simp only [hklt, if_true, Option.some.injEq] at hu
+          subst hu; exact ok'
+        · rename_i hkj
+          have hjk : j ≠ k := fun h => hkj h.symm
+          exact (hw.each j u hu).congr as.next_le
+            (fun r hr => as.frame r (other j u hjk hu r hr).1 (other j u hjk hu r hr).2)
+      · intro i j vi vj hi hj hij r hr
+        simp only [List.getElem?_set] at hi hj
+        by_cases hki : k = i
+        · have hkj : ¬ k = j := fun h => hij (hki ▸ h ▸ rfl)
+          simp only [hki, if_true] at hi
+          simp only [hkj, if_false] at hj
+          have : i < w.vecs.length := hki ▸ hklt
+          simp only [this, if_true, Option.some.injEq] at hi
+          subst hi
+          have hj' : w.vecs[j]? = some vj := hj
+          rcases refs' r hr with h | h
+          · exact hw.sep k j v vj hk hj' (fun h => hkj h) r h
+          · intro hm
+            have := (hw.each j vj hj').lt_next r hm; omega
+        · simp only [hki, if_false] at hi
+          by_cases hkj : k = j
+          · simp only [hkj, if_true] at hj
+            have : j < w.vecs.length := hkj ▸ hklt
+            simp only [this, if_true, Option.some.injEq] at hj
+            subst hj
+            intro hm
+            rcases refs' r hm with h | h
+            · exact hw.sep i k vi v hi hk (fun h => hki h.symm) r hr h
+            · have := (hw.each i vi hi).lt_next r hr; omega
+          · simp only [hkj, if_false] at hj
+            exact hw.sep i j vi vj hi hj hij r hr
+    · exact hw
+
+/-- … and does not touch what any other vector shows -/
+theorem update_view_other {w : World α} {k : Nat} {f : Store α → Vec → (Store α × Vec) × Out} (hw : WorldOk w)
+    (hf : ∀ v s' v', w.vecs[k]? = some v → f w.store v = ((s', v'), .ok) → Assign w.store v s' v' ∧ VecOk s' v')
+    (j : Nat) (hj : j ≠ k) : (w.update k f).1.view j = w.view j := by
+  unfold World.update
+  split
+  · rfl
+  · rename_i v hk
+    split
+    · rename_i s' v' e
+      obtain ⟨as, _⟩ := hf v s' v' hk e
+      simp only [World.view, List.getElem?_set, (Ne.symm hj : ¬ k = j), if_false]
+      cases hu : w.vecs[j]? with
+      | none => rfl
+      | some u =>
+        have okU := hw.each j u hu
+        have fr : ∀ r ∈ u.refs, s'.cells r = w.store.cells r := by
+          intro r hr
+          refine as.frame r (okU.lt_next r hr) ?_
+          intro e
+          exact hw.sep k j v u hk hu (Ne.symm hj) v.values (by simp [Vec.refs]) (e ▸ hr)
+        simp only [Option.map_some, Option.some.injEq, view]
+        rw [fr u.values (by simp [Vec.refs]), fr u.mins (by simp [Vec.refs]), fr u.maxs (by simp [Vec.refs]),
+          fr u.defaults (by simp [Vec.refs])]
+    · rfl
+
+/-- … nor the names, bounds, defaults and option flags of the vector it is applied to -/
+theorem update_frozen_self {w : World α} {k : Nat} {f : Store α → Vec → (Store α × Vec) × Out} (hw : WorldOk w)
+    (hf : ∀ v s' v', w.vecs[k]? = some v → f w.store v = ((s', v'), .ok) → Assign w.store v s' v' ∧ VecOk s' v') :
+    (w.update k f).1.frozen k = w.frozen k := by
+  unfold World.update
+  split
+  · rfl
+  · rename_i v hk
+    split
+    · rename_i s' v' e
+      obtain ⟨as, _⟩ := hf v s' v' hk e
+      have hklt : k < w.vecs.length := by
+        rcases List.getElem?_eq_some_iff.mp hk with ⟨h, _⟩; exact h
+      have okv := hw.each k v hk
+      obtain ⟨d1, d2, d3, _, _, _⟩ := okv.distinct
+      have r2 := okv.lt_next v.mins (by simp [Vec.refs])
+      have r3 := okv.lt_next v.maxs (by simp [Vec.refs])
+      have r4 := okv.lt_next v.defaults (by simp [Vec.refs])
+      simp only [World.frozen, World.view, List.getElem?_set, if_true, hklt, hk, Option.map_some, Option.some.injEq,
+        View.frozen, view]
+      rw [as.names, as.mins, as.maxs, as.defaults, as.checkBounds, as.checkHit, as.acceptNan,
+        as.frame v.mins r2 d1.symm, as.frame v.maxs r3 d2.symm, as.frame v.defaults r4 d3.symm]
+    · rfl
+
+theorem update_rejected (w : World α) (k : Nat) (f : Store α → Vec → (Store α × Vec) × Out) (e : Err)
+    (h : (w.update k f).2 = .rejected e) : (w.update k f).1 = w := by
+  unfold World.update at h ⊢
+  cases hk : w.vecs[k]? with
+  | none => simp
+  | some v =>
+    simp only [hk] at h ⊢
+    rcases hf : f w.store v with ⟨⟨s', v'⟩, o⟩
+    cases o with
+    | ok => simp [hf] at h
+    | rejected e' => simp
+
+theorem update_length (w : World α) (k : Nat) (f : Store α → Vec → (Store α × Vec) × Out) :
+    (w.update k f).1.vecs.length = w.vecs.length := by
+  unfold World.update
+  split
+  · rfl
+  · split
+    · simp
+    · rfl
+
+theorem spawn_rejected (w : World α) (k : Nat) (f : Store α → Vec → Except Err (Store α × Vec)) (e : Err)
+    (h : (w.spawn k f).2 = .rejected e) : (w.spawn k f).1 = w := by
+  unfold World.spawn at h ⊢
+  cases hk : w.vecs[k]? with
+  | none => simp
+  | some v =>
+    simp only [hk] at h ⊢
+    cases hf : f w.store v with
+    | ok p => simp [hf] at h
+    | error e' => simp
+
+/-- an allocation-only operation keeps the world well formed and every existing vector as it was -/
+theorem spawn_ok {w : World α} {k : Nat} {f : Store α → Vec → Except Err (Store α × Vec)} (hw : WorldOk w)
+    (hf : ∀ v s' c, w.vecs[k]? = some v → f w.store v = .ok (s', c) → Spawn w.store s' c ∧ VecOk s' c) :
+    WorldOk (w.spawn k f).1 ∧ ∀ j, j < w.vecs.length → (w.spawn k f).1.view j = w.view j := by
+  unfold World.spawn
+  split
+  · exact ⟨hw, fun _ _ => rfl⟩
+  · rename_i v hk
+    split
+    · rename_i s' c e
+      obtain ⟨sp, okc⟩ := hf v s' c hk e
+      refine ⟨⟨?_, ?_⟩, ?_⟩
+      · intro j u hu
+        simp only [List.getElem?_append] at hu
+        split at hu
+        · exact (hw.each j u hu).congr sp.next_le (fun r hr => sp.frame r ((hw.each j u hu).lt_next r hr))
+        · rename_i hlt
+          have : j - w.vecs.length = 0 ∨ 0 < j - w.vecs.length := by omega
+          rcases this with h0 | h0
+          · simp only [h0, List.getElem?_cons_zero, Option.some.injEq] at hu; subst hu; exact okc
+          · have : ([c] : List Vec)[j - w.vecs.length]? = none := by
+              apply List.getElem?_eq_none; simp; omega
+            simp [this] at hu
+      · intro i j vi vj hi hj hij r hr
+        simp only [List.getElem?_append] at hi hj
+        have newc : ∀ (m : Nat) (u : Vec), ¬ m < w.vecs.length → ([c] : List Vec)[m - w.vecs.length]? = some u →
+            u = c ∧ m = w.vecs.length := by
+          intro m u hm hu
+          have : m - w.vecs.length = 0 ∨ 0 < m - w.vecs.length := by omega
+          rcases this with h0 | h0
+          · simp only [h0, List.getElem?_cons_zero, Option.some.injEq] at hu; exact ⟨hu.symm, by omega⟩
+          · have : ([c] : List Vec)[m - w.vecs.length]? = none := by
+              apply List.getElem?_eq_none; simp; omega
+            simp [this] at hu
+        split at hi <;> split at hj
+        · exact hw.sep i j vi vj hi hj hij r hr
+        · rename_i h1 h2
+          obtain ⟨rfl, _⟩ := newc j vj h2 hj
+          intro hm
+          have := sp.fresh r hm
+          have := (hw.each i vi hi).lt_next r hr; omega
+        · rename_i h1 h2
+          obtain ⟨rfl, _⟩ := newc i vi h1 hi
+          intro hm
+          have := sp.fresh r hr
+          have := (hw.each j vj hj).lt_next r hm; omega
+        · rename_i h1 h2
+          obtain ⟨_, e1⟩ := newc i vi h1 hi
+          obtain ⟨_, e2⟩ := newc j vj h2 hj
+          omega
+      · intro j hj
+        simp only [World.view, List.getElem?_append, hj, if_true]
+        cases hu : w.vecs[j]? with
+        | none => rfl
+        | some u =>
+          have okU := hw.each j u hu
+          have fr : ∀ r ∈ u.refs, s'.cells r = w.store.cells r :=
+            fun r hr => sp.frame r (okU.lt_next r hr)
+          simp only [Option.map_some, Option.some.injEq, view]
+          rw [fr u.values (by simp [Vec.refs]), fr u.mins (by simp [Vec.refs]), fr u.maxs (by simp [Vec.refs]),
+            fr u.defaults (by simp [Vec.refs])]
+    · exact ⟨hw, fun _ _ => rfl⟩
+
+end world
+
+/-! ### dictionary items, rebuilding a vector from its own data -/
+section selfcopy
+variable {α : Type} [LinearOrder α]
+
+theorem items_spec (n : Nat) : ∀ (ns : List String) (vs los his ds : List (XR α)),
+    ns.length = n → vs.length = n → los.length = n → his.length = n → ds.length = n →
+    (items ns vs los his ds).length = n ∧ (items ns vs los his ds).map (·.name) = ns
+      ∧ (items ns vs los his ds).map (·.value) = vs ∧ (items ns vs los his ds).map (·.min) = los
+      ∧ (items ns vs los his ds).map (·.max) = his ∧ (items ns vs los his ds).map (·.default) = ds := by
+  induction n with
+  | zero =>
+    intro ns vs los his ds h1 h2 h3 h4 h5
+    cases ns <;> cases vs <;> cases los <;> cases his <;> cases ds <;> simp_all [items]
+  | succ n ih =>
+    intro ns vs los his ds h1 h2 h3 h4 h5
+    cases ns with
+    | nil => simp at h1
+    | cons a ns => cases vs with
+      | nil => simp at h2
+      | cons b vs => cases los with
+        | nil => simp at h3
+        | cons c los => cases his with
+          | nil => simp at h4
+          | cons d his => cases ds with
+            | nil => simp at h5
+            | cons e ds =>
+              have := ih ns vs los his ds (by simpa using h1) (by simpa using h2) (by simpa using h3)
+                (by simpa using h4) (by simpa using h5)
+              simp only [items, List.length_cons, List.map_cons, List.cons.injEq, true_and]
+              exact ⟨by omega, this.2.1, this.2.2.1, this.2.2.2.1, this.2.2.2.2.1, this.2.2.2.2.2⟩
+
+/-- a NaN among values that satisfy the invariant means NaN is allowed -/
+theorem valuesOk_nan_an (an : Bool) : ∀ (xs lo hi : List (XR α)), valuesOk an xs lo hi = true →
+    xs.length = lo.length → xs.length = hi.length → xs.any XR.isNaN = true → an = true := by
+  intro xs
+  induction xs with
+  | nil => intro lo hi _ _ _ h; simp at h
+  | cons x xs ih =>
+    intro lo hi hv h1 h2 hn
+    cases lo with
+    | nil => simp at h1
+    | cons l lo =>
+      cases hi with
+      | nil => simp at h2
+      | cons h hi =>
+        simp only [valuesOk, all3, Bool.and_eq_true] at hv
+        simp only [List.any_cons, Bool.or_eq_true] at hn
+        rcases hn with hn | hn
+        · have := hv.1
+          simp only [okElem, XR.within, hn, Bool.true_and, Bool.not_true, Bool.false_and, Bool.or_false] at this
+          exact this
+        · exact ih lo hi hv.2 (by simpa using h1) (by simpa using h2) hn
+
+theorem reject?_of_ok (an : Bool) (n : Nat) (xs : List (XR α)) (hl : xs.length = n)
+    (hn : xs.any XR.isNaN = true → an = true) : reject? an n xs = none := by
+  unfold reject?
+  simp only [hl, ne_eq, not_true_eq_false, if_false]
+  cases h : xs.any XR.isNaN
+  · simp
+  · simp [hn h]
+
+/-- `maxs` as a value vector for the interval `[mins, +∞]` -/
+theorem valuesOk_maxs (an : Bool) (n : Nat) : ∀ (lo hi : List (XR α)), lo.length = n → hi.length = n →
+    boundsOk lo hi = true → valuesOk an hi lo (List.replicate n .pinf) = true ∧
+      boundsOk lo (List.replicate n .pinf) = true := by
+  induction n with
+  | zero => intro lo hi h1 h2 _; cases lo <;> cases hi <;> simp_all [valuesOk, all3, boundsOk, all2]
+  | succ n ih =>
+    intro lo hi h1 h2 hb
+    cases lo with
+    | nil => simp at h1
+    | cons l lo =>
+      cases hi with
+      | nil => simp at h2
+      | cons h hi =>
+        simp only [boundsOk, all2, Bool.and_eq_true, boundElem, Bool.not_eq_true'] at hb
+        have := ih lo hi (by simpa using h1) (by simpa using h2) (by simpa [boundsOk] using hb.2)
+        simp only [List.replicate_succ, valuesOk, all3, boundsOk, all2, Bool.and_eq_true]
+        refine ⟨⟨?_, this.1⟩, ?_, this.2⟩
+        · have hp : XR.lt .pinf h = false := by cases h <;> simp [XR.lt]
+          simp [okElem, XR.within, hb.1.1.2, hb.1.2, hp]
+        · have hp : XR.lt .pinf l = false := by cases l <;> simp [XR.lt]
+          have hl0 : l.isNaN = false := hb.1.1.1
+          simp [boundElem, hl0, hp]; simp [XR.isNaN]
+
+end selfcopy
+
+section selfcopy_eps
+variable {α : Type} [LinearOrder α] [AddCommGroup α] [IsOrderedAddMonoid α]
+
+/-- the constructor accepts, unchanged, the bounds / defaults of a well-formed vector (fixed `clone`, `from_dict`) -/
+theorem mkArrays_self {eps : α} (heps : 0 ≤ eps) {names : List String} {cb ch an : Bool} {lo hi d : List (XR α)}
+    (h : ArraysOk names cb ch an lo hi d) :
+    mkArrays eps names (some d) (some lo) (some hi) cb ch an = .ok (lo, hi, d) := by
+  obtain ⟨nl, nh⟩ := boundsOk_noNaN lo hi h.bounds (by rw [h.len_lo, h.len_hi])
+  have hf : (ch && !cb) = false := by
+    cases hc : ch
+    · simp
+    · simp [h.flags hc]
+  have e1 : ctorMins an names.length (some lo) = .ok lo := by
+    simp only [ctorMins]
+    rw [reject?_of_ok an _ lo h.len_lo (by intro hx; rw [nl] at hx; simp at hx)]
+    simp [clipAll_inf _ lo h.len_lo]
+  obtain ⟨vm, bm⟩ := valuesOk_maxs an names.length lo hi h.len_lo h.len_hi h.bounds
+  have e2 : ctorMaxs eps an names.length lo (some hi) = .ok hi := by
+    simp only [ctorMaxs]
+    rw [reject?_of_ok an _ hi h.len_hi (by intro hx; rw [nh] at hx; simp at hx)]
+    simp only [hitAll_false_of_ok heps an hi lo _ vm, Bool.false_eq_true, if_false]
+    rw [clipAll_eq_self an hi lo _ bm vm (by rw [h.len_hi, h.len_lo]) (by simp [h.len_hi])]
+  have e3 : ctorDefaults eps an names.length lo hi (some d) = .ok d := by
+    simp only [ctorDefaults]
+    rw [reject?_of_ok an _ d h.len_d
+      (valuesOk_nan_an an d lo hi h.d_ok (by rw [h.len_d, h.len_lo]) (by rw [h.len_d, h.len_hi]))]
+    simp only [hitAll_false_of_ok heps an d lo hi h.d_ok, Bool.false_eq_true, if_false]
+    rw [clipAll_eq_self an d lo hi h.bounds h.d_ok (by rw [h.len_d, h.len_lo]) (by rw [h.len_d, h.len_hi])]
+  unfold mkArrays
+  simp only [hf, Bool.false_eq_true, if_false, h.names, Bool.not_true, e1, e2, e3]
+
+/-- constructor + values setter + hit flag on a well-formed vector's own data: accepted, and the result shows
+exactly the data it was given -/
+theorem rebuild_self {eps : α} (heps : 0 ≤ eps) (s : Store α) {names : List String} {cb ch an : Bool}
+    {lo hi d vals : List (XR α)} (hit : Bool) (h : ArraysOk names cb ch an lo hi d)
+    (hv : valuesOk an vals lo hi = true) (hl : vals.length = names.length) :
+    ∃ s' c, rebuild eps s names d lo hi vals hit cb ch an = .ok (s', c)
+      ∧ view s' c = ⟨names, vals, lo, hi, d, hit, cb, ch, an⟩ := by
+  obtain ⟨sp, ok1, vw⟩ := mkFrom_ok (s := s) h
+  have emk : mk eps s names (some d) (some lo) (some hi) cb ch an = .ok (mkFrom s names lo hi d cb ch an) := by
+    unfold mk; rw [mkArrays_self heps h]
+  generalize hmk : mkFrom s names lo hi d cb ch an = p at *
+  obtain ⟨s1, c1⟩ := p
+  simp only [view, View.mk.injEq] at vw
+  obtain ⟨v1, v2, v3, v4, v5, v6, v7, v8, v9⟩ := vw
+  have hrej : reject? c1.acceptNan c1.n vals = none := by
+    rw [v9, Vec.n, v1]
+    exact reject?_of_ok an _ vals hl
+      (valuesOk_nan_an an vals lo hi hv (by rw [hl, h.len_lo]) (by rw [hl, h.len_hi]))
+  have hclip : clipAll vals (s1.cells c1.mins) (s1.cells c1.maxs) = vals := by
+    rw [v3, v4]
+    exact clipAll_eq_self an vals lo hi h.bounds hv (by rw [hl, h.len_lo]) (by rw [hl, h.len_hi])
+  have r2 := ok1.lt_next c1.mins (by simp [Vec.refs])
+  have r3 := ok1.lt_next c1.maxs (by simp [Vec.refs])
+  have r4 := ok1.lt_next c1.defaults (by simp [Vec.refs])
+  refine ⟨(s1.alloc vals).1, { c1 with values := s1.next, hit := hit }, ?_, ?_⟩
+  · unfold rebuild
+    rw [emk]
+    simp only [setAll, hrej, hclip, alloc_ref]
+  · simp only [view, alloc_cells_new, alloc_cells_old s1 vals _ r2, alloc_cells_old s1 vals _ r3,
+      alloc_cells_old s1 vals _ r4, v1, v3, v4, v5, v7, v8, v9]
+
+end selfcopy_eps
+
 end HydroVerif.C12
